@@ -343,6 +343,7 @@ let c03_budget = 4000
 let lcg = ref 12345
 let rnd n = lcg := (!lcg * 1103515245 + 12345) land 0x3fffffff; (!lcg lsr 8) mod n
 
+let split_ws = split
 let c03_search (c : case) (mode : string) km pm (wit : bytes list) (ssig : bytes) (tapok : bool) =
   (* the script's input items (push order) and how to rebuild (scriptSig, witness) around other items *)
   let split : (bytes list * (bytes list -> bytes * bytes list)) option =
@@ -389,8 +390,20 @@ let c03_search (c : case) (mode : string) km pm (wit : bytes list) (ssig : bytes
               c.id c.kind km pm c.lock c.seq c.desc (hexs items) (hexs cand);
             true
           end else false in
-        (* exhaustive for short lengths while the budget allows, then random *)
         let found = ref false in
+        (* directed: every entry of the specification's satisfaction table built from what a third
+           party has — the signatures visible in the original witness, EVERY preimage, the locks the
+           signed transaction meets — is an alternative witness to try *)
+        (match c.kind, c.mss with
+         | ("wsh" | "shwsh" | "sh" | "bare"), [mstr] ->
+           let m = parse_ms (split_ws mstr) in
+           let adv_km = List.fold_left (fun acc (i, sg) -> if List.mem sg items then acc lor (1 lsl i) else acc) 0 c.sigs_idx in
+           let adv_pm = (1 lsl (List.length !pres - 1)) - 1 in
+           let adv = assets_of c adv_km adv_pm None in
+           List.iter (fun w -> if not !found then (if try_cand (List.rev w) then found := true))
+             (all_sat (keyenv_of false) adv m)
+         | _ -> ());
+        (* exhaustive for short lengths while the budget allows, then random *)
         let budget = ref c03_budget in
         let rec enum len prefix =
           if !found || !budget <= 0 then ()
